@@ -1077,6 +1077,37 @@ func c08R3(c *Ctx, r *c08Roles) {
 	}
 }
 
+// c08PathBase: a wrapper (descriptorBlobPath(desc) = blobPath(desc.Digest) with its
+// own error text) counts as the function it wraps.
+func c08PathBase(g *ssa.Function) *ssa.Function {
+	for depth := 0; g != nil && depth < 3; depth++ {
+		var inner *ssa.Function
+		for _, a := range RetAtoms(g, 0) {
+			if s, isC := constString(a.Val); isC && s == "" {
+				continue
+			}
+			ex, ok := a.Val.(*ssa.Extract)
+			if !ok {
+				return g
+			}
+			call, ok := ex.Tuple.(*ssa.Call)
+			if !ok || ex.Index != 0 {
+				return g
+			}
+			h := StaticCallee(call)
+			if h == nil || fnPkgPath(h) != fnPkgPath(g) || h.Signature.Params().Len() != 1 {
+				return g
+			}
+			inner = h
+		}
+		if inner == nil {
+			return g
+		}
+		g = inner
+	}
+	return g
+}
+
 // c08YieldBodyReturnsErr: the error of a call inside a range-over-func body is
 // stored into a captured variable and the body returns false on its non-nil
 // edge; the enclosing function returns that variable.
@@ -1193,6 +1224,7 @@ func c08R4(c *Ctx, r *c08Roles) {
 							src = g
 						}
 					}
+					src = c08PathBase(src)
 					switch {
 					case src == nil:
 						ok, why = false, "the path passed to "+CalleeName(call)+" is not produced by the package's blob-path function"
